@@ -95,8 +95,28 @@ Definition model_agree (o : obs) : N :=
    an accepted value that is E5-representable must encode to exactly e5_encode
    of what it denotes, and decode back to an equal value consuming exactly
    the encoding.  Codes: 0 holds, 1 outside the property's domain, >= 30 violated. *)
+(* an accepted number is stored as the number it is: an integer class that takes 1.5 and keeps 1 has changed the value (36) *)
+Definition same_number (p : plain) (z : Z) : bool :=
+  match p with
+  | PInt z' => (z =? z')%Z
+  | PBool b => (z =? (if b then 1 else 0))%Z
+  | PFloat b => match z2d z with Ok b' => b' =? b | Err _ => false end
+  | _ => true
+  end.
+Definition numbers_kept (p : plain) (v : val) : bool :=
+  match v with
+  | VNum _ zs =>
+    match p with
+    | PList ps => (length ps =? length zs)%nat && forallb (fun pz => same_number (fst pz) (snd pz)) (combine ps zs)
+    | PInt _ | PBool _ | PFloat _ => match zs with [z] => same_number p z | _ => false end
+    | _ => true
+    end
+  | _ => true
+  end.
+
 Definition spec_holds (o : obs) : N :=
   if negb (o_set_ok o) then 1 else
+  if negb (numbers_kept (o_in o) (o_val o)) then 36 else
   match denote (o_val o) with
   | None => 1
   | Some i =>
